@@ -5,7 +5,7 @@
    open_registry() reads that file; a fresh instance of class k is set from the cache". *)
 From Coq Require Import List NArith ZArith Bool.
 Import ListNotations.
-Require Import Base.Wire Base.PyStr C15.Model C15.Lemmas C15.Names C15.Codec C15.Split C15.File C15.FileMulti C15.Tree C15.Final C15.Atomic C15.Gen C15.Restart C15.Wrapped C15.NormRT C15.Reset C15.ResetWorld C15.Width C15.Api.
+Require Import Base.Wire Base.PyStr C15.Model C15.Lemmas C15.Names C15.Codec C15.Split C15.File C15.FileMulti C15.Tree C15.Final C15.Atomic C15.Gen C15.Restart C15.Wrapped C15.NormRT C15.Reset C15.ResetWorld C15.Width C15.Api C15.ResetParent.
 Require Import gen.T15.
 
 (* ---- names: split inverts join for every non-empty list of names (full statement since the
@@ -470,3 +470,20 @@ Theorem C15_write_through_read_resolver_refuted :
   resolve nat (assign nat (ANC (net_key [97]) [35; 97]) 7%nat (mkspec nat 1%nat [] [] [])) (ANC (net_key [98]) [35; 97]) = 1%nat.
 Proof. exact write_through_read_resolver_leaks. Qed.
 Print Assumptions C15_write_through_read_resolver_refuted.
+
+(* ---- `config reset channel` on a network: <var>.:net.#chan inherits from its PARENT <var>.:net.  On any tree
+   satisfying the invariant, with an explicit network value v: after the reset, getSpecific(net, chan) returns v
+   (not the general value).  The parent each reset statement copies from is pinned in the source (t15). *)
+Theorem C15_reset_netchan_shows_network_value :
+  forall (V : Type) (reparse : V -> res V) (settext : V -> str -> res V) (t : tree V) (s : spec V) n c v,
+  Inv V reparse t s -> lookup n (sn V s) = Some v ->
+  let t1 := fst (step V reparse settext t (OReset (ANC n c))) in
+  snd (step V reparse settext t1 (OGet (ANC n c))) = Ok v.
+Proof. exact reset_netchan_shows_network_value. Qed.
+Print Assumptions C15_reset_netchan_shows_network_value.
+
+Theorem C15_general_is_not_the_parent :
+  let s := mkspec nat 1%nat [] [([58; 110], 2%nat)] [(([58; 110], [35; 97]), 3%nat)] in
+  resolve nat (forget nat (ANC [58; 110] [35; 97]) s) (ANC [58; 110] [35; 97]) = 2%nat /\ g nat s = 1%nat.
+Proof. exact general_is_not_the_parent. Qed.
+Print Assumptions C15_general_is_not_the_parent.
